@@ -48,7 +48,7 @@ def shards(tier: str, seed: int) -> List[Dict[str, Any]]:
     # slicing element 0 must keep those axes
     out.append({"id": "render|unit_axes", "kind": "render_unit_axes", "weight": 3.0,
                 "cfgs": [["Cleaner", "r5c5a1"], ["LevelBasedForaging", "g5a1f1v1L3"], ["RobotWarehouse", "s1x3h3a1r1q2L1"],
-                         ["Connector", "w3a1L3"], ["TSP", "n1"], ["FlatPack", "r1c1"]]})
+                         ["Connector", "w3a1L3"], ["TSP", "n1"], ["FlatPack", "r1c1"], ["Minesweeper", "r3c7m5"], ["Knapsack", "n10b2sparse"], ["Snake", "r3c5L7"]]})
     return out
 
 
@@ -80,12 +80,28 @@ def run_render_unit_axes(shard: Dict[str, Any], rep: Report) -> None:
                 seen.append(st)
                 return "rendered"
 
-        for b in (1, 2, 4):
-            keys = jnp.stack([key_for(shard["seed"], shard["id"] + name, j)[0] for j in range(b)])
+        def untyped(tree):
+            # new-style typed PRNG keys (jax.random.key) are turned into their raw uint32 data for comparison
+            return jax.tree_util.tree_map(lambda x: jax.random.key_data(x) if jnp.issubdtype(getattr(x, "dtype", jnp.int32), jax.dtypes.prng_key) else x, tree)
+
+        for b, typed in ((1, False), (2, False), (4, False), (2, True), (3, True)):
+            if typed:
+                keys = jax.random.split(jax.random.key(int(key_for(shard["seed"], shard["id"] + name, 0)[1]) % (2**31 - 1)), b)
+                rep.count("render_typed_key_batches")
+            else:
+                keys = jnp.stack([key_for(shard["seed"], shard["id"] + name, j)[0] for j in range(b)])
             for W in (VmapWrapper, VmapAutoResetWrapper):
                 w = W(Recorder(env))
-                state, _ = jax.jit(w.reset)(keys)
-                single, _ = jax.jit(env.reset)(keys[0])
+                try:
+                    state, _ = jax.jit(w.reset)(keys)
+                    single, _ = jax.jit(env.reset)(keys[0])
+                except Exception as e:
+                    if typed:
+                        rep.count("typed_keys_not_accepted_by_reset")
+                        rep.notes.append(f"{name}: reset does not accept typed keys: {e!r}"[:200])
+                        continue
+                    raise
+                single = untyped(single)
                 seen.clear()
                 rep.evaluated(1, name + cid + str(b))
                 rep.count("render_unit_axes_checked")
@@ -94,9 +110,11 @@ def run_render_unit_axes(shard: Dict[str, Any], rep: Report) -> None:
                 except Exception as e:
                     rep.violation(name, cid, "render_raises", {"wrapper": W.__name__, "error": repr(e)[:300], "batch": b}, replay={"env": name, "cfg": cfg, "batch": b})
                     continue
-                if len(seen) != 1 or tree_diff(decode(seen[0]), decode(single), exact=True):
-                    bad = tree_diff(decode(seen[0]), decode(single), exact=True) if seen else []
-                    rep.violation(name, cid, "render_first_element", {"wrapper": W.__name__, "calls": len(seen), "fields": bad[:6], "batch": b}, replay={"env": name, "cfg": cfg, "batch": b})
+                got = untyped(seen[0]) if seen else None
+                if len(seen) != 1 or tree_diff(decode(got), decode(single), exact=True):
+                    bad = tree_diff(decode(got), decode(single), exact=True) if seen else []
+                    rep.violation(name, cid, "render_first_element", {"wrapper": W.__name__, "calls": len(seen), "fields": bad[:6], "batch": b, "typed_keys": typed},
+                                  replay={"env": name, "cfg": cfg, "batch": b, "typed_keys": typed}, qualifier="typed_keys" if typed else "")
         E.cleanup()
 
 
@@ -229,6 +247,15 @@ def run_shard(shard: Dict[str, Any], rep: Report) -> None:
         va_step, vb_step = jax.jit(va.step), jax.jit(vb.step)
         # reset equivalence of the two stacks
         ra, rb = jax.jit(va.reset)(jnp.stack(keys)), jax.jit(vb.reset)(jnp.stack(keys))
+        # the same wrapper objects are also used with another batch size (an evaluation batch next to the training batch)
+        # before the first step is traced: nothing about a wrapper may remember the size of an earlier batch
+        other = jnp.stack(keys + [key_for(seed, sid, 100 + j)[0] for j in range(2 if b != 2 else 3)])
+        jax.jit(va.reset)(other)
+        jax.jit(vb.reset)(other)
+        if b > 1:  # ... and with a smaller one, which is the batch size the wrappers saw last
+            jax.jit(va.reset)(jnp.stack(keys[: b - 1]))
+            jax.jit(vb.reset)(jnp.stack(keys[: b - 1]))
+        rep.count("other_batch_size_reset_on_same_wrapper")
         bad = tree_diff(decode(ra), decode(rb), **tol)
         rep.evaluated(1)
         if bad:
